@@ -47,8 +47,23 @@ for fn in sorted(glob.glob(ROOT + "/evidence/C*.json")):
     ev.append(f"| {e['property_id']} | {e['level']} | {c.get('discharged')}/{c.get('obligations')} | {c.get('evaluations')} | {c.get('distinct_nontrivial')} | {', '.join(c.get('axioms') or []) or 'none'} | {len(c.get('correspondence_only_ops') or [])} |")
 es = ("Last committed evidence (tier as committed):\n\n| prop | level | theorems discharged | correspondence cases | distinct non-trivial | axioms (Print Assumptions) | correspondence-only ops |\n|---|---|---|---|---|---|---|\n" + "\n".join(ev))
 
+oc = []
+for fn in sorted(glob.glob(ROOT + "/tools/manifest.d/C*.json")):
+    pid = os.path.basename(fn)[:-5]
+    m = json.load(open(fn))
+    evp = ROOT + f"/evidence/{pid}.json"
+    c = json.load(open(evp))["coverage"] if os.path.exists(evp) else {}
+    ths = c.get("theorems") or []
+    co = c.get("correspondence_only_ops") or []
+    oc.append(f"### {pid} — level `{m['category']}`; technique: {m['technique']}\n\n{m['text']}\n\n*Trusted / assumed:* {m['note']}\n\n"
+              f"*Theorems checked on the last run ({len(ths)}):* " + ", ".join(f"`{x}`" for x in ths) + "\n\n"
+              f"*Correspondence-only (not counted as proved) ({len(co)}):* " + ("; ".join(str(x) for x in co) if co else "none") + "\n")
+os_ = ("What each check establishes after the build (generated from tools/manifest.d/*.json and the last evidence; the per-property plan in §7 was "
+       "written before the build and is kept for reference — where it differs, this section is the current state).\n\n" + "\n".join(oc))
+
 p = ROOT + "/DESIGN.md"
 t = open(p).read()
+t = region(t, "outcome", os_)
 t = region(t, "findings", fx)
 t = region(t, "seeded", sd)
 t = region(t, "evidence", es)
